@@ -1,6 +1,7 @@
 package fakepg
 
 import (
+	"regexp"
 	"strconv"
 	"strings"
 )
@@ -119,6 +120,53 @@ type stmt struct {
 
 	native  string // name of a natively executed shape
 	nparams int
+	prune   *pruneSpec
+}
+
+// pruneSpec: the parameters of the PruneTask-shaped statement
+//
+//	delete from shovel.task_updates where (T…) not in (select S… from (select I…,
+//	row_number() over(partition by P… order by O [desc]) as rn from shovel.task_updates) as s where rn <=|< $1)
+//
+// read from the SQL text, so that a changed partition or ordering is executed as written.
+type pruneSpec struct {
+	tuple, sel, part []string
+	order            string
+	desc             bool
+	strict           bool // rn < $1
+}
+
+var pruneRe = regexp.MustCompile(`^delete from shovel \. task_updates where \( ([a-z_ ,]+) \) not in \( select ([a-z_ ,]+) from \( select ([a-z_ ,]+) , row_number \( \) over \( partition by ([a-z_ ,]+) order by ([a-z_]+)( desc| asc)? \) as rn from shovel \. task_updates \) as s where rn (<=|<) \$1 \)$`)
+
+func splitCols(s string) []string {
+	var res []string
+	for _, f := range strings.Split(s, ",") {
+		if f = strings.TrimSpace(f); f != "" {
+			res = append(res, f)
+		}
+	}
+	return res
+}
+
+func matchPrune(toks []token) *pruneSpec {
+	m := pruneRe.FindStringSubmatch(normalize(toks))
+	if m == nil {
+		return nil
+	}
+	ps := &pruneSpec{tuple: splitCols(m[1]), sel: splitCols(m[2]), part: splitCols(m[4]), order: m[5], desc: strings.TrimSpace(m[6]) == "desc", strict: m[7] == "<"}
+	inner := map[string]bool{}
+	for _, c := range splitCols(m[3]) {
+		inner[c] = true
+	}
+	for _, c := range ps.sel {
+		if !inner[c] {
+			return nil
+		}
+	}
+	if len(ps.sel) != len(ps.tuple) {
+		return nil
+	}
+	return ps
 }
 
 type parser struct {
@@ -497,6 +545,13 @@ func parseStatement(sql string, toks []token) (*stmt, *PGError) {
 		st.kind = sEmpty
 		return st, nil
 	}
+	if ps := matchPrune(toks); ps != nil {
+		st.kind = sNative
+		st.native = "prune_task"
+		st.prune = ps
+		st.nparams = 1
+		return st, nil
+	}
 	if name := nativeShape(toks); name != "" {
 		st.kind = sNative
 		st.native = name
@@ -828,20 +883,6 @@ func nativeShape(toks []token) string {
 }
 
 func init() {
-	registerShape("prune_task", `
-		delete from shovel.task_updates
-		where (src_name, ig_name, num) not in (
-			select src_name, ig_name, num
-			from (
-				select
-					src_name,
-					ig_name,
-					num,
-					row_number() over(partition by src_name, ig_name order by num desc) as rn
-				from shovel.task_updates
-			) as s
-			where rn <= $1
-		)`)
 	registerShape("task_updates", `
         with f as (
             select src_name, ig_name, max(num) num
